@@ -716,7 +716,7 @@ func main() {
 		"not_reproducible":      ck.notRepro,
 		"median_wall_ms":        medWall,
 		"max_wall_ms":           maxWall,
-		"source_chain":          map[string]interface{}{"blocks": chainLen, "txs_at": []int{2, 5}, "validator_set_change_at": changeHeight, "powers_before": genesisPowers, "powers_after": "2,2,1,4 + new validator 3 (total 12)", "digest": c.digest},
+		"source_chain":          map[string]interface{}{"blocks": chainLen, "txs_at": []int{2, 5}, "validator_set_change_at": changeHeight, "powers_before": genesisPowers, "powers_after": "2,2,1,4 + new validator 5 (total 14, i.e. 2 mod 3; the genesis total 6 is 0 mod 3)", "digest": c.digest},
 		"pool_peer_timeout_s":   ck.peerTimeout,
 		"calibration_release_ms": rel,
 		"bounds":                map[string]int{"chain_length": chainLen, "heights_synced": chainLen - 1, "serving_peers_max": 3},
